@@ -2,8 +2,13 @@
 from lib import line, Id, Case
 from props.polymod_common import *
 
-PROVED = []
-NOT_PROVED = ['termination for all draw streams (false: only with probability 1)']
+PROVED = ['[P] roots_sound: for every prime p (2 included), both build profiles, every f and every stream of random bytes: if find_linear_factors returns, '
+          'every returned value lies in [0, p) and is a root of f modulo p (Horner value divisible by p)',
+          '[P] roots_complete_set: conversely every root of f mod p lying in [0, p) is returned (set completeness, via Euler\'s criterion for the no-progress exit); '
+          'hence the set of returned values is exactly the root set, and the list is empty iff f has no root',
+          '[P] roots_of_constant']
+NOT_PROVED = ['multiplicities: each root is returned exactly as often as its multiplicity (so length = deg when f splits); checked by the oracle (brute force / planted roots, always_oracle)',
+              'termination for all draw streams (false: only with probability 1)']
 PROFILES = ('debug', 'release')
 RULE = ('find_linear_factors on every coefficient vector up to a degree bound over F_2, F_3, F_5, F_7, F_11, F_13; planted roots with '
         'multiplicities <= 4 times an irreducible cofactor (degree 0, 2, 3, 4) over p up to 2^61-1 and beyond 2^64, coefficients disguised by '
@@ -12,8 +17,8 @@ RULE = ('find_linear_factors on every coefficient vector up to a degree bound ov
         'Non-trivial = degree >= 2 (at least one random shift is drawn).')
 CLAIM = dict(
     technique='Coq proof about the Gallina model of src/poly_mod/linear.rs (+ prim.rs) + extracted-model-vs-implementation correspondence with replayed random draws + independent oracle (root multiset)',
-    text='Theorems in coq/Props/C12.v; the model is tied to /repo by running the extracted model and impl_svc on the same inputs and the same random bytes.',
-    note='see PROVED / NOT_PROVED in the evidence file',
+    text='Proved for all inputs and all draw streams: soundness (every returned value is a root in [0,p)) and set completeness (every root is returned). The model is tied to /repo by running the extracted model and impl_svc on the same inputs and the same random bytes, in both build profiles.',
+    note='Multiplicities (multiset equality) are not proved; they are checked by the independent oracle on every explored input (always_oracle).',
     ref='DESIGN.md section 4, C12')
 TIMEOUT = 1200
 
@@ -40,7 +45,7 @@ def roots_case(rng, f, p, tag, expected=None, script=(), profile='debug', nontri
     seed = rng.getrandbits(64)
     extra = (Id('wrapping'),) if profile == 'release' else ()
     return Case('pm_roots', line('pm_roots', f, p, seed, list(script)), model=model_with_bytes('pm_roots', f, p, extra=extra),
-                compare=compare_rng, oracle=o_roots(f, p, expected) if prime else None, nontrivial=nontrivial and p >= 2 and deg(red(f, p)) >= 2,
+                compare=compare_rng, oracle=o_roots(f, p, expected) if prime else None, always_oracle=True, nontrivial=nontrivial and p >= 2 and deg(red(f, p)) >= 2,
                 tag=tag + ('-release' if profile == 'release' else ''), profile=profile)
 
 def planted(rng, p, maxdeg):
@@ -73,7 +78,7 @@ def cases(rng, tier):
     primes = [2, 3, 5, 7, 13, 101, 65537, 2 ** 31 - 1, 2 ** 61 - 1, 18446744073709551629]
     for i in range(1500 if th else 260):
         p = primes[i % len(primes)]
-        f, roots = planted(rng, p, 12 if (th or p < 2 ** 32) else 5)      # the extracted model computes on Coq binary Z: 64-bit primes are slow, keep the quick tier small there
+        f, roots = planted(rng, p, 12 if p < 2 ** 32 else 7 if th else 5)      # the extracted model computes on Coq binary Z: 64-bit primes are slow, keep the quick tier small there
         if rng.random() < 0.5: f = disguise(rng, f, p)
         if rng.random() < 0.15: f = f + [p * rng.randrange(1, 3)]            # leading coefficient divisible by p
         prof = 'release' if i % 5 == 4 else 'debug'
@@ -82,7 +87,7 @@ def cases(rng, tier):
     # ---- scripted first draw
     for i in range(400 if th else 90):
         p = primes[2 + i % (len(primes) - 2)]
-        f, roots = planted(rng, p, 10 if (th or p < 2 ** 32) else 5)
+        f, roots = planted(rng, p, 10 if p < 2 ** 32 else 7 if th else 5)
         if deg(f) < 2: continue
         how = rng.choice(['root', 'root', 'root', 'nonroot', 'rejected'])
         if how == 'root' and roots:
